@@ -6,18 +6,17 @@ func MapArray(env *Zlisp, fun *SexpFunction, arr *SexpArray) (Sexp, error) {
 	result := make([]Sexp, len(arr.Val))
 	var err error
 
-	var firstTyp *RegisteredType
 	for i := range arr.Val {
 		result[i], err = env.Apply(fun, arr.Val[i:i+1])
 		if err != nil {
-			return &SexpArray{Val: result, Typ: firstTyp, Env: env}, err
-		}
-		if firstTyp == nil {
-			firstTyp = result[i].Type()
+			return &SexpArray{Val: result, Env: env}, err
 		}
 	}
 
-	return &SexpArray{Val: result, Typ: firstTyp, Env: env}, nil
+	// (the type of the result is computed from its elements when it
+	// is asked for; set to the type of the first element, as it was
+	// here, an array of strings passed for a string)
+	return &SexpArray{Val: result, Env: env}, nil
 }
 
 func ConcatArray(arr *SexpArray, rest []Sexp) (Sexp, error) {
